@@ -61,6 +61,17 @@ func (h *Host) MultiVar(a string, rest ...int) int {
 	return s
 }
 
+// parameters of one Go type: only the order tells them apart
+func (h *Host) SameType2(a, b int) int {
+	h.calls = append(h.calls, fmt.Sprintf("SameType2(%d,%d)", a, b))
+	return a - b
+}
+
+func (h *Host) SameType4(a, b, c, d string) string {
+	h.calls = append(h.calls, fmt.Sprintf("SameType4(%q,%q,%q,%q)", a, b, c, d))
+	return a + b + c + d
+}
+
 func (h *Host) NoArgs() int {
 	h.calls = append(h.calls, "NoArgs()")
 	return 7
